@@ -1,4 +1,4 @@
-CONSTANTS P = 83  A = 1  B = 7  Gx = 0  Gy = 16  N = 79  Iterated = FALSE
+CONSTANTS P = 83  A = 1  B = 7  Gx = 0  Gy = 16  N = 79  Scope = "full"  Iterated = FALSE
 SPECIFICATION Spec
 INVARIANT GroupLaw
 CHECK_DEADLOCK FALSE
